@@ -54,7 +54,7 @@ Definition expected_shape_stage1_wait : list string := [
   "if gerr != nil { return nil, gerr }"
 ].
 Definition expected_shape_stage2_pb : list string := [
-  "if !errors.Is(pbutil.ErrUnknownExtension, v.err) { if v.err != nil { return nil, fmt.Errorf(""error parsing %s: %w"", src.filename, v.err) } if v.syslProtoImport != nil { if err := mergo.Merge(listener.module, v.syslProtoImport); err != nil { return nil, err } } continue }"
+  "if !errors.Is(pbutil.ErrUnknownExtension, v.err) { if v.err != nil { return nil, fmt.Errorf(""error parsing %s: %w"", src.filename, v.err) } if v.syslProtoImport != nil { merge := func() (err error) { defer func() { if r := recover(); r != nil { err = fmt.Errorf(""%v"", r) } }() return mergo.Merge(listener.module, v.syslProtoImport) } if err := merge(); err != nil { return nil, fmt.Errorf(""error merging %s: %w"", src.filename, err) } } continue }"
 ].
 
 Lemma foreign_shapes_current :
@@ -173,6 +173,34 @@ Proof.
   unfold file_fault. rewrite Hr, Hi. cbn [negb t_pb current_tables]. rewrite Hp, Hpay. reflexivity.
 Qed.
 
+(* a compiled model that decodes but cannot be merged (second pass) *)
+Theorem current_pb_unmergeable_fails d dec :
+  ~ bad_collect d -> pb_dispatch pb_cases (d_path d) = Some dec -> d_pay d = PayInvalid ->
+  file_fault current_tables d = Some PbMerge.
+Proof.
+  intros Hnc Hp Hpay.
+  assert (Hr : d_read d = true) by (destruct (d_read d) eqn:E; [reflexivity|exfalso; apply Hnc, bad_unreadable, E]).
+  assert (Hi : contains (d_path d) ".sysl" && negb (d_imports_ok d) = false).
+  { destruct (contains (d_path d) ".sysl") eqn:Ec; [|reflexivity]. destruct (d_imports_ok d) eqn:Ei; [reflexivity|].
+    exfalso. apply Hnc, bad_import_lines; assumption. }
+  unfold file_fault. rewrite Hr, Hi. cbn [negb t_pb current_tables]. rewrite Hp, Hpay. reflexivity.
+Qed.
+
+(* the compiled-model arm exactly: the class of a readable compiled model is a function of its payload alone (its
+   content is never looked at by the format detection) *)
+Theorem current_pb_arm_exact d dec :
+  ~ bad_collect d -> pb_dispatch pb_cases (d_path d) = Some dec ->
+  file_fault current_tables d =
+  match d_pay d with PayOk => None | PayUndecodable => Some PbDecode | PayInvalid => Some PbMerge end.
+Proof.
+  intros Hnc Hp.
+  assert (Hr : d_read d = true) by (destruct (d_read d) eqn:E; [reflexivity|exfalso; apply Hnc, bad_unreadable, E]).
+  assert (Hi : contains (d_path d) ".sysl" && negb (d_imports_ok d) = false).
+  { destruct (contains (d_path d) ".sysl") eqn:Ec; [|reflexivity]. destruct (d_imports_ok d) eqn:Ei; [reflexivity|].
+    exfalso. apply Hnc, bad_import_lines; assumption. }
+  unfold file_fault. rewrite Hr, Hi. cbn [negb t_pb current_tables]. rewrite Hp. destruct (d_pay d); reflexivity.
+Qed.
+
 (* ---- the closure theorem for the current rule and format tables ---- *)
 Theorem foreign_fails_clean_current g descs maxd root s choice :
   let fl := faults_from current_tables descs in
@@ -198,6 +226,7 @@ Definition d_root := mk "root.sysl" "" PayOk.
 Definition d_both := mk "api/a.yaml" (String.append "swagger: ""2.0""" (String "010" "'openapi' : 3")) PayOk.
 Definition d_none := mk "a.yml" "name: nothing" PayOk.
 Definition d_pbbad := mk "m.pb.json" "{" PayUndecodable.
+Definition d_pbodd := mk "d/m.textpb" "apps: {}" PayInvalid.
 Definition d_txt := mk "notes.d/readme" "x" PayOk.
 Definition d_good := mk "b.yaml" "swagger: ""2.0""" PayOk.
 Definition d_json_schema :=
@@ -210,6 +239,7 @@ Example dispatch_examples :
   file_fault current_tables d_root = None /\ file_fault current_tables d_good = None /\
   file_fault current_tables d_both = Some ForeignAmbiguous /\ file_fault current_tables d_none = Some ForeignDetect /\
   file_fault current_tables d_pbbad = Some PbDecode /\ file_fault current_tables d_txt = Some ForeignDetect /\
+  file_fault current_tables d_pbodd = Some PbMerge /\
   (* detected as swagger by the parser's list, ambiguous among importer.Formats: the importer arm fails *)
   file_fault current_tables d_json_schema = Some ForeignConvert.
 Proof. vm_compute. repeat split. Qed.
@@ -218,13 +248,15 @@ Example hypotheses_met :
   (~ bad_collect d_both /\ pb_dispatch pb_cases (d_path d_both) = None /\ smem (path_ext (d_path d_both)) ambiguous_exts = true /\
    exists c, d_eff d_both = Some c /\ sig_ok SigOpenapi c = true /\ sig_ok SigSwagger c = true) /\
   (~ bad_collect d_txt /\ pb_dispatch pb_cases (d_path d_txt) = None /\ smem (path_ext (d_path d_txt)) accepted_exts = false) /\
-  (bad_parse current_tables d_pbbad /\ ~ bad_collect d_pbbad).
+  (bad_parse current_tables d_pbbad /\ ~ bad_collect d_pbbad) /\
+  (bad_parse current_tables d_pbodd /\ ~ bad_collect d_pbodd /\ pb_dispatch pb_cases (d_path d_pbodd) = Some DecText).
 Proof.
   assert (Hnc : forall p c pay, ~ bad_collect (mk p c pay)) by (intros p c pay [H|_ H]; discriminate).
-  split; [|split].
+  split; [|split; [|split]].
   - split; [apply Hnc|]. split; [reflexivity|]. split; [reflexivity|]. eexists. split; [reflexivity|]. split; reflexivity.
   - split; [apply Hnc|]. split; reflexivity.
   - split; [|apply Hnc]. apply (bad_pb current_tables d_pbbad DecJson); reflexivity.
+  - split; [|split; [apply Hnc|reflexivity]]. apply (bad_pb_merge current_tables d_pbodd DecText); reflexivity.
 Qed.
 
 (* root imports a.yaml (two signatures), m.pb.json (does not decode) and b.yaml (fine): the conversion error of stage 1
@@ -233,6 +265,14 @@ Definition g_foreign : graph := graph_of [(0,[1;2;3]); (1,[]); (2,[]); (3,[])]%N
 Definition descs_a (f:idx) : fdesc :=
   if N.eqb f 1 then d_both else if N.eqb f 2 then d_pbbad else if N.eqb f 3 then d_good else d_root.
 Definition descs_b (f:idx) : fdesc := if N.eqb f 1 then d_good else descs_a f.
+(* second pass: 1 = a compiled model that cannot be merged, 2 = one that does not decode: the first in file order *)
+Definition descs_c (f:idx) : fdesc := if N.eqb f 1 then d_pbodd else descs_a f.
+Example merge_runs :
+  let fl := faults_from current_tables descs_c in
+  let s := frun expected_rules g_foreign fl 0 0%N (repeat 0 20) in
+  ftasks s = [] /\ (forall choice, In choice [0;1;2;3] -> foutcome expected_rules fl 0%N choice s = Error (EMerge 1%N)) /\
+  exit_code (EMerge 1%N) = 1%N.
+Proof. vm_compute. repeat split; intros choice [<-|[<-|[<-|[<-|[]]]]]; reflexivity. Qed.
 Example foreign_runs :
   (let fl := faults_from current_tables descs_a in
    let s := frun expected_rules g_foreign fl 0 0%N (repeat 0 20) in
